@@ -143,6 +143,7 @@ func newTreeInst(u *universe, c *counters) *treeInst {
 	for _, n := range u.Ledger {
 		i.accepted[n] = true // stored by InitQCTree (those below the restart root are not demanded)
 	}
+	probeLookups(u, i.t)
 	return i
 }
 
@@ -199,10 +200,26 @@ func (i *treeInst) Enabled() []string {
 			cmt = append(cmt, "cmt:"+id)
 		}
 	}
+	// late traffic for proposals that were accepted and are no longer (or not yet) under Root - pruned by
+	// a commit, or waiting as orphans: a quorum / justify, a rollback request, a commit request. The tree
+	// looks the id up from Root, finds nothing and ignores the call.
+	var late []string
+	names := make([]string, 0, len(i.accepted))
+	for n := range i.accepted {
+		names = append(names, n)
+	}
+	sort.Strings(names)
+	for _, n := range names {
+		if s.inTree(n) || n == genesis {
+			continue
+		}
+		late = append(late, "high:"+n, "rb:"+n, "cmt:"+n)
+	}
 	out := append(ins, high...)
 	out = append(out, cmt...)
 	out = append(out, rb...)
-	return append(out, dup...)
+	out = append(out, dup...)
+	return append(out, late...)
 }
 
 // storedDepth: number of links from Root down to id (first occurrence).
@@ -224,6 +241,7 @@ func (i *treeInst) Apply(ev string) string {
 	}
 	obs := "ok"
 	var eff *int64
+	acceptedNow := ""
 	switch kind {
 	case "ins", "dup":
 		if i.u.by[arg] == nil {
@@ -233,6 +251,9 @@ func (i *treeInst) Apply(ev string) string {
 		if err != nil {
 			obs = "err"
 		} else {
+			if !i.accepted[arg] {
+				acceptedNow = arg
+			}
 			i.accepted[arg] = true
 		}
 	case "high":
@@ -247,6 +268,7 @@ func (i *treeInst) Apply(ev string) string {
 	default:
 		panic("c15: bad event " + ev)
 	}
+	probeLookups(i.u, i.t)
 	after := takeSnap(i.t)
 	changed := before.key() != after.key()
 	switch kind {
@@ -283,6 +305,7 @@ func (i *treeInst) Apply(ev string) string {
 		}
 	}
 	i.lastNew = append(i.lastNew, transitionIssues(i.u, before, after, kind == "rb")...)
+	i.lastNew = append(i.lastNew, acceptedNowIssues(i.u, after, acceptedNow)...)
 	return fmt.Sprintf("%s high=%s root=%s", obs, after.marker[0], after.rootID)
 }
 
